@@ -422,6 +422,10 @@ def check_frames(ctx, P):
             ctx.ob("c.checksum", "writer-range-start", sorted(starts) == [(1, 1), (4, 4)] or sorted(starts) == [(1, 1)] or sorted(starts) == [(4, 4)],
                    "the writer folds the checksum from offsets %s; it must start at the DA octet (offset 1, or 4 for SD2)" % sorted(starts), ser.loc(b))
     ctx.anchor("checksum range in the serializer", nfold, 1)
+    # ... and what is stored as FCS is the wrapping sum of every byte of that range (the reader computes the same sum, C10.b)
+    fcs_stores = [w for w in ws if w["kind"] == "store" and C10.is_fcs_term(strip_casts(w["value"]), P)]
+    ctx.ob("c.checksum", "writer-fcs-is-sum", len(fcs_stores) == 1,
+           "the serializer must store exactly one frame check sequence that is the wrapping byte sum (start 0, every byte) of the covered range, found %d such store(s)" % len(fcs_stores), ser.loc(0))
     # end delimiter constant after the checksum
     ed = [w for w in ws if w["kind"] == "store" and simplify(w["value"]) == ("const", FR["ED"])]
     ctx.ob("b.formats", "writer-ed", len(ed) == 1, "exactly one store of ED (0x16) expected in the serializer, found %d" % len(ed), ser.loc(0))
